@@ -6,13 +6,13 @@ From Coq Require Import ZArith.
 From TL Require Import Lib.Base Lib.GenTypes Model.PlacementTypes Gen.PlacementGen Model.Placement Model.PlacementSource
      Model.PlacementRun Proofs.PlacementStrings Proofs.PlacementMain Proofs.PlacementSource.
 
-(* 1. With the two remaining quirks off (the prefix test, the handling of dict allow items and the resolution of
+(* 1. With the three remaining quirks off (the prefix test, the handling of dict allow items and the resolution of
       relative paths are the forms found in the source, for any value of their flags), for every regex engine, every configuration with non-empty directory keys
       and every file: the linter model yields exactly the specified outcome - the configuration is
       rejected iff it holds an invalid pattern, otherwise the reported list (file, line, column, message)
       is the one the allow/deny rules prescribe for the project-relative path. *)
 Theorem C18_outcome_exact : forall valid matches q c f,
-  q_global_on_covered q = false -> q_trailing_slash_depth q = false ->
+  q_global_on_covered q = false -> q_trailing_slash_depth q = false -> q_backslash_separator q = false ->
   cfg_ok c = true ->
   forget (run valid matches q c f) = spec valid matches c f.
 Proof. exact run_exact. Qed.
@@ -91,7 +91,7 @@ Print Assumptions C18_no_rules_no_report.
 
 (* 6. The verdict depends only on the path relative to the project root. *)
 Theorem C18_verdict_depends_on_relpath_only : forall valid matches q c f1 f2,
-  q_global_on_covered q = false -> q_trailing_slash_depth q = false ->
+  q_global_on_covered q = false -> q_trailing_slash_depth q = false -> q_backslash_separator q = false ->
   cfg_ok c = true ->
   relpath f1 = relpath f2 ->
   forget (run valid matches q c f1) = forget (run valid matches q c f2).
@@ -107,13 +107,14 @@ Theorem C18_invalid_pattern_rejected : forall valid matches q c f,
 Proof. exact invalid_pattern_rejected. Qed.
 Print Assumptions C18_invalid_pattern_rejected.
 
-(* 8. Confinement (partial; the full statement is 1): the faithful model, with both remaining quirks on, is exact
-      on every input outside their two defect classes - no directory key written with a trailing slash, and
-      the file uncovered or no global lists configured. *)
+(* 8. Confinement (partial; the full statement is 1): the faithful model, with the three remaining quirks on, is exact
+      on every input outside their defect classes - no directory key written with a trailing slash,
+      the file uncovered or no global lists configured, and no backslash in the file's root-relative path. *)
 Theorem C18_actual_exact_outside_defects_partial : forall valid matches q c f,
   cfg_ok c = true ->
   no_trailing_slash c = true ->
   (spec_rule (relpath f) (dirs_of c) = None \/ (c_gdeny c = None /\ c_gpat c = None)) ->
+  no_backslash (relpath f) = true ->
   forget (run valid matches q c f) = spec valid matches c f.
 Proof. exact run_exact_outside_defects. Qed.
 Print Assumptions C18_actual_exact_outside_defects_partial.
@@ -132,6 +133,14 @@ Theorem C18_source_dict_allow_items_are_patterns : forall valid q a, v_aitem val
 Proof. exact v_aitem_pattern. Qed.
 Print Assumptions C18_source_dict_allow_items_are_patterns.
 
+(* 9'. PathResolver.normalize_path_string (the string methods found in the source, interpreted by the model): the
+       string the patterns and directory keys are tested against is the root-relative path itself, for every quirk
+       vector, unless the path has a backslash in it (then, with the flag on, every backslash has become `/`). *)
+Theorem C18_source_normalisation_is_identity : forall q s,
+  negb (q_backslash_separator q) || no_backslash s = true -> path_str q s = s.
+Proof. exact path_str_id. Qed.
+Print Assumptions C18_source_normalisation_is_identity.
+
 (* 10. Where the rule set comes from (config file auto-loaded by the Orchestrator, inline --rules merged into it,
        wrapped section / known top-level keys / layout-file fall-back): with the two source quirks off the rule set in
        force is the specified one - inline rules replace the file's, the documented {"allow", "deny"} form is
@@ -144,7 +153,7 @@ Proof. exact resolve_exact. Qed.
 Print Assumptions C18_source_resolution_exact.
 
 Theorem C18_source_outcome_exact : forall valid matches q sq s f,
-  q_global_on_covered q = false -> q_trailing_slash_depth q = false ->
+  q_global_on_covered q = false -> q_trailing_slash_depth q = false -> q_backslash_separator q = false ->
   q_rules_toplevel_ignored sq = false -> q_rules_do_not_override_file sq = false ->
   src_ok s = true -> cfg_ok (spec_resolve s) = true ->
   forget (run_src valid matches q sq s f) = spec_src valid matches s f.
@@ -165,6 +174,7 @@ Theorem C18_source_outcome_outside_defects_partial : forall valid matches q sq s
   (s_rules s = None \/ (s_file s = None /\ forall x, s_rules s <> Some (RToplevel x))) ->
   no_trailing_slash (spec_resolve s) = true ->
   (spec_rule (relpath f) (dirs_of (spec_resolve s)) = None \/ (c_gdeny (spec_resolve s) = None /\ c_gpat (spec_resolve s) = None)) ->
+  no_backslash (relpath f) = true ->
   forget (run_src valid matches q sq s f) = spec_src valid matches s f.
 Proof. exact run_src_exact_outside_defects. Qed.
 Print Assumptions C18_source_outcome_outside_defects_partial.
